@@ -19,6 +19,17 @@ CLAIMED = {
         technique="Rocq proof (induction over nested values) + translator-regenerated constants + in-Coq differential correspondence",
         design="5/C01",
     ),
+    "C02": dict(
+        text="Theorems (Props/C02.v): for every byte string the independent reference decoder accepts (1-3 length bytes whatever the magnitude, every "
+             "format code, arbitrary nesting) and every receiving type that admits the item (fixed class, Dynamic with the code allowed, ANYVALUE), the "
+             "model of the library decoder returns exactly the item's value and end position (C02_decode_valid, simulation by induction on nesting), the value "
+             "denotes the item (C02_value_denotes_item) and re-encodes to the canonical encoding (C02_reencode_canonical); every finite binary32 survives "
+             "widening/rounding and lies inside the regenerated F4 bounds (C02_every_finite_float32). Tied to the code by differential execution on "
+             "re-laid-out encodings whose observations are judged by the reference decoder alone.",
+        note=NOTE_COMMON + " NaN payloads are outside the statement (Python's nan != nan); records must be sent with all their fields.",
+        technique="Rocq proof (decoder-vs-reference-decoder simulation) + translator-regenerated constants + in-Coq differential correspondence",
+        design="5/C02",
+    ),
 }
 
 NOT_YET = {}
